@@ -174,6 +174,8 @@ def _gen_case(rng, flavor=None, size=None):
             if not clean:
                 ops.append(['commit', None])
                 end_txn(True)
+            if flavor == 'fs' and rng.random() < 0.3:
+                ops.append(['failpack'])                    # abandoned pack (disk full), then …
             ops.append(['pack', rng.randrange(0, 6)])
             clean = True
     ops.append(['commit', None])
@@ -1008,6 +1010,25 @@ def run_case(case, root):
                                 cnt('multi-undo:same-object-twice')
                         committed(u64(db.lastTransaction()), undo_of=us)
                         boundary('undo')
+                    elif kind == 'failpack':
+                        if flavor != 'fs' or not txns or V['dirty'] or V['created'] or V['root']:
+                            cnt('skip')
+                            continue
+                        tm0.abort()
+                        F0.clear()
+                        c1_drop()
+                        tt = TimeStamp(p64(txns[-1]['tid'])).timeTime() + 0.5
+                        env.fail_next_pack()
+                        try:
+                            db.pack(tt)
+                            cnt('failpack:nothing-to-pack')
+                        except OSError:
+                            cnt('failpack:abandoned')
+                        except Exception as e:
+                            cnt('failpack:' + errname(e))
+                        finally:
+                            env.clear_pack_failure()
+                        boundary('pack-failed')             # nothing was packed: nothing may have changed
                     elif kind == 'pack':
                         if not txns or V['dirty'] or V['created'] or V['root']:
                             cnt('skip')
